@@ -93,7 +93,7 @@ Proof. exact lower_times. Qed.
    validated against AstVm itself on every run (Corr.C02.model_run: source body, and raised compiled code).
    For every body of statements covered by [wf_stmt] (assignments with any compound operator over jump-free
    right-hand sides, ternary assignments, conditional / counting / unconditional jumps, labels, interrupts,
-   instruction calls whose arguments need no temporaries; every statement enabled on the VM's difficulty),
+   instruction calls whose arguments need no temporaries; statements disabled on the VM's difficulty are waited for and skipped),
    every table of intrinsics, every initial state and any number of loop iterations [fs]:
    if the source run, in strict mode, ends in a state, the lowered stream ends in EXACTLY that state -- same
    registers and locals, same time and real time, same instruction log with the same real times.
@@ -107,7 +107,7 @@ Theorem C02_body_correct :
   forall libm avail auto_casts rty lty diff dsel n0 fuel body code s',
   (forall op t, sigil_of_unop op <> None -> avail (KUnOp op t) = false) ->
   lower_body avail auto_casts rty lty fuel body (mklst n0 []) = Ok (code, s') ->
-  wf_body auto_casts rty lty dsel n0 body ->
+  wf_body auto_casts rty lty n0 body ->
   forall fs st st', fresh lty (p_mem st) n0 ->
   sprog gen_optable libm rty lty diff dsel true fs body Exec st = Ok st' ->
   wprog gen_optable libm lty dsel fs code Exec st None = Ok st'.
@@ -120,7 +120,7 @@ Example C02_body_example :
   let rty := fun _ : Z => TInt in let lty := fun _ : nat => TInt in let libm := fun (_ : unop) (_ : Z) => 0 in
   exists code s' st',
     lower_body ex_avail true rty lty 20 ex_body (mklst 0 []) = Ok (code, s') /\ length code = 25%nat /\
-    wf_body true rty lty None 0 ex_body /\ fresh lty (p_mem ex_st0) 0 /\
+    wf_body true rty lty 0 ex_body /\ fresh lty (p_mem ex_st0) 0 /\
     sprog gen_optable libm rty lty 0 None true 10 ex_body Exec ex_st0 = Ok st' /\
     p_time st' = 40 /\ p_real st' = 60 /\ length (p_log st') = 5%nat /\ regs (p_mem st') 1011 = VInt 27 /\
     wprog gen_optable libm lty None 10 code Exec ex_st0 None = Ok st'.
@@ -128,7 +128,7 @@ Proof. exact body_example. Qed.
 
 (* The full property, for reference.  Not yet a theorem: declarations, instruction
    calls with complex arguments, difficulty switches inside expressions, ternaries nested inside
-   arithmetic, statements disabled on the VM's difficulty, and the composition with register allocation
+   arithmetic, and the composition with register allocation
    (Proofs/RegAllocSem.v, regalloc_simulates).  Those parts are covered by the structural correspondence (model lowering =
    implementation lowering) and by the AstVm before/after oracle on every run. *)
 Definition C02_full_statement : Prop :=
